@@ -42,7 +42,7 @@ ASSUMPTIONS = [
     "ref.sim / numpy are trusted",
 ]
 
-METHODS = ['cosine', 'corr', 'spearman', 'rho-a', 'tau-a', 'cosine_cov', 'corr_cov']
+METHODS = ['cosine', 'corr', 'spearman', 'rho-a', 'tau-a', 'tau-b', 'cosine_cov', 'corr_cov']
 REGRESS_OK = ('cosine', 'corr', 'cosine_cov', 'corr_cov')
 EV_RTOL, EV_ATOL = 1e-9, 1e-10
 WATCHDOG_S = 20     # a fitter that loops (fit_regress_nn can) makes the case inconclusive
@@ -58,10 +58,13 @@ def vec(draw, n_pairs, ties=False):
         xs = [1, 2, 3] + draw(st.lists(st.integers(1, 6), min_size=n_pairs - 3,
                                        max_size=n_pairs - 3))
         off = draw(st.integers(0, n_pairs - 1))
-        return [xs[(i + off) % n_pairs] / 2.0 for i in range(n_pairs)]
+        return [xs[(i + off) % n_pairs] / 8.0 for i in range(n_pairs)]
+    # dyadic values below 1: exact in binary, pairwise distinct.  (Magnitudes are kept small
+    # because fit_regress_nn's active-set loop has an absolute stopping threshold of 100*eps
+    # and does not terminate once rounding in A'y - A'Ax exceeds it; not C04's subject.)
     xs = draw(st.lists(st.integers(1, 8 * n_pairs + 40), min_size=n_pairs, max_size=n_pairs,
                        unique=True))
-    return [x / 8.0 for x in xs]
+    return [x / 512.0 for x in xs]
 
 
 @st.composite
@@ -171,6 +174,7 @@ def base_case(draw, cond_range=(4, 8), rdm_range=(2, 6), min_pat_groups=3, min_r
     models = [draw(model_spec(n_pairs, list(model_types), ties)) for _ in range(m)]
     return dict(n_cond=n_cond, data=data, rdm_groups=rdm_groups, pat_groups=pat_groups,
                 container=draw(gen.container), method=method, models=models, ties=ties,
+                bare_model=bool(m == 1 and draw(st.booleans())),
                 seed=draw(st.integers(0, 2 ** 31 - 1)))
 
 
@@ -314,6 +318,11 @@ def crossval_case(draw):
 
 # ============================================================================
 # shared checking code
+
+def models_arg(case, models):
+    """a single model may be passed bare instead of in a list"""
+    return models[0] if case.get('bare_model') and len(models) == 1 else models
+
 
 def descs(case):
     rd = U.RDM_DESC if case.get('rdm_groups') is not None else 'index'
@@ -582,7 +591,7 @@ def check_fixed(case):
 
     def call(first):
         d, ms = (data, models) if first else (U.build_data(case), U.build_models(case))
-        return EV.eval_fixed(ms, d, theta=U.theta_arg(case), method=case['method'])
+        return EV.eval_fixed(models_arg(case, ms), d, theta=U.theta_arg(case), method=case['method'])
 
     with U.harness(case['seed'], case['draws'], rec), core.watchdog(WATCHDOG_S):
         res = lib(call, True)
@@ -629,7 +638,7 @@ def check_boot_fixed(case):
                   rdm_descriptor=rd, boot_noise_ceil=case['boot_noise_ceil'])
         if boot != 'rdm':
             kw['pattern_descriptor'] = pd
-        return getattr(EV, routine)(ms, d, **kw)
+        return getattr(EV, routine)(models_arg(case, ms), d, **kw)
 
     with U.harness(case['seed'], case['draws'], rec), core.watchdog(WATCHDOG_S):
         res = lib(call, True)
@@ -728,7 +737,7 @@ def check_boot_cv(case):
                   use_correction=case['use_correction'])
         if not dual:
             kw['boot_type'] = case['boot_type']
-        return getattr(EV, routine)(ms, d, **kw)
+        return getattr(EV, routine)(models_arg(case, ms), d, **kw)
 
     with U.harness(case['seed'], case['draws'], rec), core.watchdog(WATCHDOG_S):
         res = lib(call, True)
@@ -830,7 +839,7 @@ def check_random_cv(case):
             d, ms = U.build_data(case), U.build_models(case)
             ft = U.build_fitters(case, ms, None)
         return EV.eval_dual_bootstrap_random(
-            ms, d, method=case['method'], fitter=ft, n_pattern=case['n_pattern_test'],
+            models_arg(case, ms), d, method=case['method'], fitter=ft, n_pattern=case['n_pattern_test'],
             n_rdm=case['n_rdm_test'], N=case['N'], n_cv=case['n_cv'], pattern_descriptor=pd,
             rdm_descriptor=rd, boot_type=case['boot_type'],
             use_correction=case['use_correction'])
@@ -934,7 +943,7 @@ def check_crossval(case):
             d, ms = U.build_data(case), U.build_models(case)
             ft = U.build_fitters(case, ms, None)
             tr, te, ce = build_sets(case)
-        return EV.crossval(ms, d, tr, te, ceil_set=ce if case['ceil'] == 'given' else None,
+        return EV.crossval(models_arg(case, ms), d, tr, te, ceil_set=ce if case['ceil'] == 'given' else None,
                            method=case['method'], fitter=ft, pattern_descriptor=pd,
                            calc_noise_ceil=case['ceil'] != 'off')
 
@@ -1044,6 +1053,8 @@ def classify(case):
         labels.append('model:' + t)
     if case.get('ties'):
         labels.append('values:ties')
+    if case.get('bare_model'):
+        labels.append('models:bare')
     flexible = any(s['type'] != 'fixed' for s in case['models'])
     if 'theta' in case:
         labels.append('theta:' + ('none' if case['theta'] is None else 'given'))
@@ -1071,20 +1082,20 @@ def classify(case):
 
 
 SUBCHECKS = [
-    SubCheck('eval_fixed', fixed_case(), check_fixed, classify, quick=40,
+    SubCheck('eval_fixed', fixed_case(), check_fixed, classify, quick=60,
              doc='per-RDM evaluations at supplied theta, cov(ddof=0)/n, dof, ceiling on the data'),
     SubCheck('eval_bootstrap', boot_fixed_case('eval_bootstrap', 'both'), check_boot_fixed,
-             classify, quick=40, doc='two-factor bootstrap at supplied theta'),
+             classify, quick=60, doc='two-factor bootstrap at supplied theta'),
     SubCheck('eval_bootstrap_pattern', boot_fixed_case('eval_bootstrap_pattern', 'pattern'),
-             check_boot_fixed, classify, quick=40, doc='bootstrap over conditions'),
+             check_boot_fixed, classify, quick=60, doc='bootstrap over conditions'),
     SubCheck('eval_bootstrap_rdm', boot_fixed_case('eval_bootstrap_rdm', 'rdm'),
-             check_boot_fixed, classify, quick=40, doc='bootstrap over RDMs'),
-    SubCheck('crossval', crossval_case(), check_crossval, classify, quick=40,
+             check_boot_fixed, classify, quick=60, doc='bootstrap over RDMs'),
+    SubCheck('crossval', crossval_case(), check_crossval, classify, quick=60,
              doc='user-supplied train/test/ceil sets: theta of that fold only, test conditions'),
     SubCheck('bootstrap_crossval', cv_case('bootstrap_crossval'), check_boot_cv, classify,
-             quick=30, doc='k-fold cross-validation inside each bootstrap sample, 3 boot types'),
+             quick=45, doc='k-fold cross-validation inside each bootstrap sample, 3 boot types'),
     SubCheck('eval_dual_bootstrap', cv_case('eval_dual_bootstrap'), check_boot_cv, classify,
-             quick=16, doc='three bootstraps sharing the same draws, cross-validated'),
+             quick=24, doc='three bootstraps sharing the same draws, cross-validated'),
     SubCheck('eval_dual_bootstrap_random', random_cv_case(), check_random_cv, classify,
-             quick=30, doc='random test sets per bootstrap sample'),
+             quick=45, doc='random test sets per bootstrap sample'),
 ]
